@@ -401,8 +401,12 @@ type expectation struct {
 	Target string   `json:"target,omitempty"`
 }
 
-func expect(routes []routeSpec, q reqSpec, m *memo, blind bool) expectation {
-	st, w, allow := m.resolve(routes, q, blind)
+func expect(routes []routeSpec, q reqSpec, m *memo) expectation {
+	return expectHyp(routes, q, m, chanStrict, 0, 0)
+}
+
+func expectHyp(routes []routeSpec, q reqSpec, m *memo, mode int, flip uint, flipCrit int) expectation {
+	st, w, allow := m.resolveHyp(routes, q, mode, flip, flipCrit)
 	e := expectation{Status: st, Winner: w, Allow: allow}
 	if w >= 0 {
 		e.Route, e.Target = routePaths[routes[w].Path], routes[w].target(w)
@@ -448,21 +452,26 @@ func orDash(s string) string {
 	return s
 }
 
-// classify derives the stable violation key of a mismatch from the failing input class.
-func classify(routes []routeSpec, q reqSpec, m *memo, e expectation, o observation) string {
+// candidates derives, from the failing input alone, the stable names of the
+// failure classes that explain a mismatch. Most mismatches have exactly one
+// candidate; where one case cannot tell two causes apart (a route passed over
+// because one of its criteria is judged differently, or because a later
+// matching route is preferred) all of them are returned and the merge step
+// (chooseKeys) picks the smallest set of names that explains every mismatch of the run.
+func candidates(routes []routeSpec, q reqSpec, m *memo, e expectation, o observation) []string {
 	if o.Residue != 0 {
-		return "effect:store-residue"
+		return []string{"effect:store-residue"}
 	}
 	switch o.Status {
 	case http.StatusAccepted, http.StatusNotFound, http.StatusMethodNotAllowed:
 	default:
-		return fmt.Sprintf("status:unexpected-%d", o.Status)
+		return []string{fmt.Sprintf("status:unexpected-%d", o.Status)}
 	}
 	if o.Status != http.StatusAccepted && o.Stored != 0 {
-		return fmt.Sprintf("effect:enqueue-on-%d", o.Status)
+		return []string{fmt.Sprintf("effect:enqueue-on-%d", o.Status)}
 	}
 	if o.Status == http.StatusAccepted && o.Stored != 1 {
-		return fmt.Sprintf("effect:accepted-stored-%d", o.Stored)
+		return []string{fmt.Sprintf("effect:accepted-stored-%d", o.Stored)}
 	}
 	realIdx := -1
 	if o.Status == http.StatusAccepted {
@@ -473,63 +482,157 @@ func classify(routes []routeSpec, q reqSpec, m *memo, e expectation, o observati
 			}
 		}
 		if realIdx < 0 {
-			return "effect:stored-route-unknown"
+			return []string{"effect:stored-route-unknown"}
 		}
 		if !routes[realIdx].inbound() {
-			return "channel:" + chanNames[routes[realIdx].Chan] + "-reachable"
+			return []string{"channel:" + chanNames[routes[realIdx].Chan] + "-reachable"}
 		}
 	}
-	// the same reference, blind to the channel type: a mismatch it explains is caused by a non-inbound route
-	if be := expect(routes, q, m, true); sameOutcome(be, o) {
-		for _, s := range routes {
-			if !s.inbound() && m.pathHolds(s, q) && m.othersHold(s, q) {
-				return "channel:" + chanNames[s.Chan] + "-405"
+	// hypotheses about non-inbound routes: a mismatch they explain is caused by such a route
+	for _, mode := range []int{chanBlind, chanAllowOnly} {
+		if sameOutcome(expectHyp(routes, q, m, mode, 0, 0), o) {
+			for _, s := range routes {
+				if !s.inbound() && m.pathHolds(s, q) && m.othersHold(s, q) {
+					return []string{"channel:" + chanNames[s.Chan] + "-405"}
+				}
 			}
 		}
 	}
 	if o.Status == http.StatusAccepted && e.Status == http.StatusAccepted && realIdx == e.Winner {
-		return fmt.Sprintf("target:%s:exp=%s:got=%s", chanNames[routes[realIdx].Chan], e.Target, o.Target)
+		return []string{fmt.Sprintf("target:%s:exp=%s:got=%s", chanNames[routes[realIdx].Chan], e.Target, o.Target)}
 	}
-	// a later route chosen although an earlier one holds as well (both hold by the reference)
-	if realIdx >= 0 && e.Winner >= 0 && e.Winner < realIdx && routes[realIdx].inbound() &&
+	set := map[string]bool{}
+	// an earlier route holds by the reference, the implementation delivered to a later route that holds as well
+	if realIdx >= 0 && e.Winner >= 0 && e.Winner < realIdx &&
 		m.pathHolds(routes[realIdx], q) && m.othersHold(routes[realIdx], q) && m.methodHolds(routes[realIdx], q) {
-		return "order:later-matching-route-chosen"
+		set["first-match:earlier-holding-route-passed-over"] = true
 	}
-	// the first single criterion of a single route whose opposite verdict explains the observation
-	for i, s := range routes {
-		for c := 0; c < nCrit; c++ {
-			st, w, allow := m.resolveFlipped(routes, q, false, i, c)
-			fe := expectation{Status: st, Winner: w, Allow: allow}
-			if w >= 0 {
-				fe.Route, fe.Target = routePaths[routes[w].Path], routes[w].target(w)
+	// every criterion class whose opposite verdict (on all routes of the configuration that share the class)
+	// explains the observation, alone or together with one of the channel hypotheses
+	classOf := func(s routeSpec, c int) (string, bool) {
+		switch c {
+		case critPath:
+			return "path(" + routePaths[s.Path] + "~" + reqPaths[q.Path] + ")", m.pathHolds(s, q)
+		case critOthers:
+			return matchNames[s.Match] + "(" + dimSig(q, dimsOfMatch(s.Match)) + ")", m.othersHold(s, q)
+		}
+		ms := "POST-by-default"
+		if len(shapeCriteria[s.Match].methods) > 0 {
+			ms = strings.Join(shapeCriteria[s.Match].methods, "+")
+		}
+		return "method(" + ms + "~" + reqMethods[q.Method] + ")", m.methodHolds(s, q)
+	}
+	for c := 0; c < nCrit; c++ {
+		masks := map[string]uint{}
+		holds := map[string]bool{}
+		for i, s := range routes {
+			if c == critOthers && s.Match == mkNone {
+				continue // no criterion there
 			}
-			if !sameOutcome(fe, o) {
-				continue
-			}
-			var refHolds bool
-			var class string
-			switch c {
-			case critPath:
-				refHolds = m.pathHolds(s, q)
-				class = "path(" + routePaths[s.Path] + "~" + reqPaths[q.Path] + ")"
-			case critOthers:
-				refHolds = m.othersHold(s, q)
-				class = matchNames[s.Match] + "(" + dimSig(q, dimsOfMatch(s.Match)) + ")"
-			default:
-				refHolds = m.methodHolds(s, q)
-				ms := "POST-by-default"
-				if len(shapeCriteria[s.Match].methods) > 0 {
-					ms = strings.Join(shapeCriteria[s.Match].methods, "+")
+			class, h := classOf(s, c)
+			masks[class] |= 1 << uint(i)
+			holds[class] = h
+		}
+		for class, mask := range masks {
+			for _, mode := range []int{chanStrict, chanBlind, chanAllowOnly} {
+				if !sameOutcome(expectHyp(routes, q, m, mode, mask, c), o) {
+					continue
 				}
-				class = "method(" + ms + "~" + reqMethods[q.Method] + ")"
+				if holds[class] {
+					set[class+":impl-fails"] = true
+				} else {
+					set[class+":impl-holds"] = true
+				}
+				break
 			}
-			if refHolds {
-				return class + ":impl-fails"
-			}
-			return class + ":impl-holds"
 		}
 	}
-	return fmt.Sprintf("unexplained:exp=%d[%s]:got=%d[%s]", e.Status, strings.Join(e.Allow, "+"), o.Status, strings.Join(o.Allow, "+"))
+	if len(set) == 0 {
+		return []string{fmt.Sprintf("unexplained:exp=%d[%s]:got=%d[%s]", e.Status, strings.Join(e.Allow, "+"), o.Status, strings.Join(o.Allow, "+"))}
+	}
+	out := make([]string, 0, len(set))
+	for k := range set {
+		out = append(out, k)
+	}
+	sort.Strings(out)
+	return out
+}
+
+const sigSep = "\x1f"
+
+// chooseKeys: greedy cover followed by removal of redundant names (broadest first), so that a
+// generic name survives only where no specific one explains the case. finds is keyed by the
+// joined candidate list of a mismatch; the result maps each chosen class name to the smallest
+// failing case it explains.
+func chooseKeys(finds map[string]finding) map[string]finding {
+	left := map[string]bool{}
+	for sig := range finds {
+		left[sig] = true
+	}
+	has := func(sig, key string) bool {
+		for _, k := range strings.Split(sig, sigSep) {
+			if k == key {
+				return true
+			}
+		}
+		return false
+	}
+	var chosen []string
+	for len(left) > 0 {
+		cover := map[string]int{}
+		for sig := range left {
+			for _, k := range strings.Split(sig, sigSep) {
+				cover[k]++
+			}
+		}
+		best := ""
+		for k, n := range cover {
+			if best == "" || n > cover[best] || (n == cover[best] && k < best) {
+				best = k
+			}
+		}
+		chosen = append(chosen, best)
+		for sig := range left {
+			if has(sig, best) {
+				delete(left, sig)
+			}
+		}
+	}
+	keep := map[string]bool{}
+	for _, k := range chosen {
+		keep[k] = true
+	}
+	for _, k := range chosen {
+		needed := false
+		for sig := range finds {
+			if !has(sig, k) {
+				continue
+			}
+			other := false
+			for _, k2 := range strings.Split(sig, sigSep) {
+				other = other || (k2 != k && keep[k2])
+			}
+			if !other {
+				needed = true
+				break
+			}
+		}
+		if !needed {
+			delete(keep, k)
+		}
+	}
+	out := map[string]finding{}
+	for sig, f := range finds {
+		for _, k := range strings.Split(sig, sigSep) {
+			if !keep[k] {
+				continue
+			}
+			if old, ok := out[k]; !ok || f.Rank < old.Rank {
+				out[k] = f
+			}
+		}
+	}
+	return out
 }
 
 type finding struct {
@@ -566,7 +669,7 @@ func runOne(routes []routeSpec, q reqSpec, m *memo, slot int) (bool, expectation
 	if err != nil {
 		return false, expectation{}, o, err
 	}
-	e := expect(routes, q, m, false)
+	e := expect(routes, q, m)
 	return !sameOutcome(e, o), e, o, nil
 }
 
@@ -581,7 +684,6 @@ func calibrate(r *runner.Run) (interp, bool) {
 			return false, false
 		}
 		defer b.a.Shutdown()
-		// positive control: the canonical request of this shape must be accepted
 		o, err := b.serve(q, q.raw())
 		if err != nil {
 			r.Infra("calibration %s: %v", name, err)
@@ -590,7 +692,7 @@ func calibrate(r *runner.Run) (interp, bool) {
 		switch o.Status {
 		case http.StatusAccepted:
 			return true, true
-		case http.StatusNotFound:
+		case http.StatusNotFound, http.StatusMethodNotAllowed:
 			return false, true
 		}
 		r.Infra("calibration %s: unexpected status %d", name, o.Status)
@@ -830,6 +932,7 @@ func TestCheck(t *testing.T) {
 	}
 
 	// violations: one per key, the smallest failing case of each key, in key order
+	finds = chooseKeys(finds)
 	keys := make([]string, 0, len(finds))
 	for k := range finds {
 		keys = append(keys, k)
@@ -925,7 +1028,7 @@ func runConfig(sh *shard, j job, m *memo, slot int) {
 			return
 		}
 		sh.trace(j.routes, q, m)
-		e := expect(j.routes, q, m, false)
+		e := expect(j.routes, q, m)
 		sh.evals++
 		sh.byLevelReq[n]++
 		switch e.Status {
@@ -940,7 +1043,7 @@ func runConfig(sh *shard, j job, m *memo, slot int) {
 		if sameOutcome(e, o) {
 			continue
 		}
-		key := classify(j.routes, q, m, e, o)
+		key := strings.Join(candidates(j.routes, q, m, e, o), sigSep)
 		rank := j.idx<<20 | int64(qi)
 		if old, ok := sh.finds[key]; ok && old.Rank <= rank {
 			continue
@@ -1060,6 +1163,10 @@ func replay(r *runner.Run, path string, m *memo) {
 	r.Set("rule", "replay of one recorded case")
 	if bad {
 		f := finding{Routes: doc.Replay.Routes, Req: doc.Replay.Req, Expect: e, Got: o}
-		r.Violation(classify(doc.Replay.Routes, doc.Replay.Req, m, e, o), f.message(), doc.Replay, nil)
+		key := doc.Key
+		if c := candidates(doc.Replay.Routes, doc.Replay.Req, m, e, o); len(c) == 1 || key == "" {
+			key = c[0]
+		}
+		r.Violation(key, f.message(), doc.Replay, nil)
 	}
 }
